@@ -191,6 +191,7 @@ def run(ctx, prop):
         ctx.assumptions += [
             "the client's stream is delivered by a scripted connection that ends at the cut offset, half of the cuts with a connection error and half with a clean end of stream (FIN); the 16-byte preamble arrives in one segment (segmentation of the preamble is C02's subject), the rest in one or in random segments",
             "a 203 request is followed by a keep-alive: when the keep-alive is answered and the request is not, the request got no reply (recorded as such; transactions of one connection are handled in order)",
+            "every 203 request, fresh or resume, is sent with or without the optional transfer-size field (drawn per request, logged as size108)",
             "after a cut the reference client resumes when it sees a partial file and starts afresh when it sees none (an absent partial file with nothing received is accepted)",
             "a non-resume upload that meets a left-over partial file may replace it at any moment before its first data byte is stored (0 bytes and the old length are both accepted until then)",
             "resource/info side files are logged but not judged, except that the round-trip download compares the data fork",
